@@ -332,7 +332,7 @@ func rule012(r *core.Run) {
 					return false
 				}
 			}
-			return s.HasValue(x) && len(s.CallsTo("gofakes3.ReadAll")) == 1 && !s.HasPrefix("call:bytes.") 
+			return s.HasValue(x) && len(s.CallsTo("gofakes3.ReadAll")) == 1 && !s.HasPrefix("call:bytes.")
 		}
 		r.Check(isX(bodyStores[0].Val), "R01.2", key(name, "body = ReadAll result"), pos(r, bodyStores[0]), "stored body is exactly the bytes read", "the stored body is not exactly the ReadAll result (sliced, appended or from another source)")
 		hs := r.P.SliceOf(hashStores[0].Val, core.SliceOpts{Depth: -1})
@@ -766,7 +766,9 @@ func rule015(r *core.Run) {
 				skip = "an iteration can return to the loop head without setting the header"
 			}
 			for _, ret := range core.Returns(fn) {
-				if core.ReachesAvoiding(first, ret, func(in ssa.Instruction) bool { return in == ssa.Instruction(metaSet) || in == head.Instrs[len(head.Instrs)-1] }) {
+				if core.ReachesAvoiding(first, ret, func(in ssa.Instruction) bool {
+					return in == ssa.Instruction(metaSet) || in == head.Instrs[len(head.Instrs)-1]
+				}) {
 					skip = "the loop can be left from inside its body before the header is set"
 				}
 			}
